@@ -414,6 +414,24 @@ func runSendClose(c *Ctx) {
 			return true
 		})
 	}
+	// the single consumer forwards synchronously and in order: no goroutine per message inside the consumer loop
+	if len(consumerIn) == 1 {
+		if cf := p.Func(consumerIn[0]); cf != nil {
+			async := false
+			ast.Inspect(cf.Body, func(n ast.Node) bool {
+				if rs, ok := n.(*ast.RangeStmt); ok {
+					ast.Inspect(rs.Body, func(m ast.Node) bool {
+						if _, isGo := m.(*ast.GoStmt); isGo {
+							async = true
+						}
+						return true
+					})
+				}
+				return true
+			})
+			c.Check(!async, "consumer-in-order", cf.Pos(), "the writer goroutine calls the connection's send function synchronously, one envelope after the other", "the writer goroutine hands envelopes to further goroutines: messages from one peer to another can be reordered")
+		}
+	}
 	c.Check(consumers == 1 && len(consumerIn) == 1 && strings.HasPrefix(consumerIn[0], "peers.(*Hub).Add$"), "single-consumer", closeSend.Pos(),
 		"exactly one receiver of the per-peer channel: the writer goroutine started in Add (per-connection FIFO, no duplication)",
 		fmt.Sprintf("the per-peer channel has %d receivers (%v): messages can be reordered or split between consumers", consumers, consumerIn))
